@@ -26,7 +26,14 @@ def trait_methods(crate, trait_def):
 
 
 def impls_of(crate, trait_path):
-    return [d for d in crate.defs if d["kind"] == "Impl" and d.get("of_trait") and d["of_trait"]["trait"] == trait_path]
+    idx = getattr(crate, "_impls_by_trait", None)
+    if idx is None:
+        idx = {}
+        for d in crate.defs:
+            if d["kind"] == "Impl" and d.get("of_trait"):
+                idx.setdefault(d["of_trait"]["trait"], []).append(d)
+        crate._impls_by_trait = idx
+    return idx.get(trait_path, [])
 
 
 def impl_methods(crate, impl_def):
